@@ -33,6 +33,11 @@ structure Round where
 /-- "given members agree on the peerset": no acting member misses a member the others see -/
 def Round.agreed (r : Round) : Bool := r.views.all (fun v => (r.w.members.map (·.1)).all v.2.contains)
 
+/-- "expired": the pin has an expiry (the zero time and the unix epoch mean none) and it lies strictly before now -/
+def specExpired (now : Int) : Stamp → Bool
+  | .zero => false
+  | .at t => decide (t ≠ 0 ∧ t < now)
+
 def samePinset (a b : PinMap) : Bool := a.all (fun p => b.get p.cid == some p) && b.all (fun p => a.get p.cid == some p)
 
 
